@@ -82,7 +82,15 @@ Definition is_adoption_edit (puid : string) (pre post : json) : bool :=
   is_orphan pre && controlled_by post puid && jeqb (strip_or_rv pre) (strip_or_rv post) &&
   forallb (fun r => existsb (fun r' => String.eqb (or_uid r) (or_uid r')) (get_owner_refs post)) (get_owner_refs pre).
 
-Definition C02_event_ok (c : ccfg) (k : cache) (parent : json) (e : ev) : option string :=
+(* the object was ours at some point: in the cache, or after a write of this very sync (an adoption) *)
+Definition was_ours (c : ccfg) (k : cache) (puid : string) (q : req) (evs : list ev) : bool :=
+  match find_cached c k q with Some o => controlled_by o puid | None => false end ||
+  existsb (fun e' => match e_call e' with
+                     | CApi q' => String.eqb (q_res q') (q_res q) && String.eqb (q_ns q') (q_ns q) &&
+                                  String.eqb (q_name q') (q_name q) && accepted e' && controlled_by (e_post e') puid
+                     | _ => false end) evs.
+
+Definition C02_event_ok (c : ccfg) (k : cache) (parent : json) (evs : list ev) (e : ev) : option string :=
   match e_call e with
   | CHook _ _ => None
   | CApi q =>
@@ -97,11 +105,8 @@ Definition C02_event_ok (c : ccfg) (k : cache) (parent : json) (e : ev) : option
           if negb (String.eqb (q_uid_pre q) (get_uid (e_pre e))) then Some "delete-hit-other-incarnation" else
           if controlled_by (e_pre e) puid then None else
           (* the object was ours when the cache was taken (ownership edited since), or never was *)
-          match find_cached c k q with
-          | Some o => if controlled_by o puid then Some "delete-target-not-controlled"
-                      else Some "delete-target-never-controlled"
-          | None => Some "delete-target-never-controlled"
-          end
+          if was_ours c k puid q evs then Some "delete-target-not-controlled"
+          else Some "delete-target-never-controlled"
       | VPatchApply =>
           if is_null (e_pre e)
           then (if controlled_by (e_post e) puid then None else Some "created-without-controller-ref")
@@ -109,11 +114,8 @@ Definition C02_event_ok (c : ccfg) (k : cache) (parent : json) (e : ev) : option
       | _ =>
           if controlled_by (e_pre e) puid then None else
           if is_adoption_edit puid (e_pre e) (e_post e) then None else
-          match find_cached c k q with
-          | Some o => if controlled_by o puid then Some "write-target-not-controlled"
-                      else Some "write-target-never-controlled"
-          | None => Some "write-target-never-controlled"
-          end
+          if was_ours c k puid q evs then Some "write-target-not-controlled"
+          else Some "write-target-never-controlled"
       end
   end.
 
@@ -131,7 +133,7 @@ Definition C02_round (c : ccfg) (k : cache) (evs : list ev) : option string :=
   match k_parent k with
   | None => None
   | Some parent =>
-      match first_some (C02_event_ok c k parent) evs with
+      match first_some (C02_event_ok c k parent evs) evs with
       | Some s => Some s
       | None =>
           if negb (forallb delete_guarded evs) then Some "delete-unguarded" else
